@@ -166,7 +166,7 @@ Definition clipped_reward (so : subgoal_option) (rw : nat -> nat -> nat -> Q) : 
 (* The closures of sub_task call self.mdp.reward / self.mdp.is_absorbing when invoked; the
    model resolves them when sub_task is built (a missing base component is reported as a
    raise here instead of at the first call). *)
-Definition sub_task (o : obj) (so : subgoal_option) : option obj :=
+Definition sub_task_gen (extra : list key) (o : obj) (so : subgoal_option) : option obj :=
   match getattr o "reward" with
   | Some (VRew rw) =>
       let term := fun s => memb s (so_subgoals so) in
@@ -179,13 +179,14 @@ Definition sub_task (o : obj) (so : subgoal_option) : option obj :=
         else Some term in
       match absf with
       | Some ab =>
-          augment o [("is_absorbing", VAbs ab);
-                     ("reward", VRew (clipped_reward so rw));
-                     ("initial_state_dist", VInit (uniform (so_initial so)))]
+          augment_gen extra o [("is_absorbing", VAbs ab);
+                               ("reward", VRew (clipped_reward so rw));
+                               ("initial_state_dist", VInit (uniform (so_initial so)))]
       | None => None
       end
   | _ => None
   end.
+Definition sub_task : obj -> subgoal_option -> option obj := sub_task_gen copied_plain.
 
 (* ------------------------------------------------------------------ *)
 (** * Part B — roll-outs *)
@@ -322,7 +323,7 @@ Definition okey_eqb (x y : okey) : bool :=
 (* counts[(ns, t, cum_reward)] += 1   (dict: first-occurrence order) *)
 Fixpoint count_add {K : Type} (eqb : K -> K -> bool) (k : K) (cs : list (K * nat)) : list (K * nat) :=
   match cs with
-  | [] => [(k, 1)]
+  | [] => [(k, 1%nat)]
   | (k', c) :: r => if eqb k k' then (k', S c) :: r else (k', c) :: count_add eqb k r
   end.
 Definition count_all {K : Type} (eqb : K -> K -> bool) (ks : list K) : list (K * nat) :=
